@@ -235,9 +235,12 @@ def walk(chk, repo):
               is not None]
     ok = len(guards) == 1 and cfg.dominates(guards[0], w)
     if ok:
-        st = guards[0].stmt
-        ok = isinstance(st, ast.If) and any(isinstance(s, ast.Return)
-                                            for s in st.body)
+        # once the test holds nothing is requested any more: no control
+        # write is reachable from its true branch (return, or break out of
+        # the walk to a return)
+        after = [m for m, lab in guards[0].succ if lab == "true"]
+        ok = bool(after) and not any(
+            is_ctrl_write(n, repo) for n in cfg.reachable(after))
     tests = [unparse(n.expr) for n in cfg.nodes if n.kind == "test"
              and id(n.stmt) in body_ids and "target" in unparse(n.expr)]
     chk.ob("R14.3", sym, "no request once the target is reached or passed",
